@@ -111,6 +111,12 @@ impl<Wr: Write> XmlSerializer<Wr> {
     #[inline(always)]
     fn qual_name(&mut self, name: &QualName) -> io::Result<()> {
         self.find_or_insert_ns(name);
+        if self.needs_default_undeclared(name) {
+            // `xmlns=""`: the element must not inherit the default namespace in scope.
+            if let Some(last_ns) = self.namespace_stack.0.last_mut() {
+                last_ns.insert(name);
+            }
+        }
         write_qual_name(&mut self.writer, name)
     }
 
@@ -129,6 +135,19 @@ impl<Wr: Write> XmlSerializer<Wr> {
             }
         }
         found
+    }
+
+    /// Is an unprefixed name in no namespace, while a default namespace is in scope?
+    fn needs_default_undeclared(&self, name: &QualName) -> bool {
+        if name.prefix.is_some() || !name.ns.is_empty() {
+            return false;
+        }
+        for stack in self.namespace_stack.0.iter().rev() {
+            if let Some(el) = stack.get(&None) {
+                return matches!(el, Some(ns) if !ns.is_empty());
+            }
+        }
+        false
     }
 
     fn find_or_insert_ns(&mut self, name: &QualName) {
